@@ -227,6 +227,7 @@ type Graph struct {
 	reachOK map[*ssa.BasicBlock]bool
 	folding int // >0 while a folding decision is being computed (nested searches do not fold)
 	foldMem map[[2]*ssa.BasicBlock]int8
+	rconds  map[string]int // conditions tested by more than one If: normal form -> index (see initFacts)
 	iphis   []*ssa.Phi // phis whose value decides a later branch (see initFacts)
 	iphiIdx map[*ssa.Phi]int
 	nilMem  map[[3]interface{}]byte
@@ -340,11 +341,11 @@ func (g *Graph) PathExists(from, to IPos, av Avoid) (bool, []*ssa.BasicBlock) {
 	track := g.folding == 0
 	if track {
 		g.initFacts()
-		track = len(g.iphis) > 0
+		track = len(g.iphis)+len(g.rconds) > 0
 	}
 	zero := ""
 	if track {
-		zero = string(make([]byte, len(g.iphis)))
+		zero = string(make([]byte, len(g.iphis)+len(g.rconds)))
 	}
 	start := &st{b: from.B, facts: zero}
 	if av.StartPrev != nil {
@@ -372,6 +373,7 @@ func (g *Graph) PathExists(from, to IPos, av Avoid) (bool, []*ssa.BasicBlock) {
 		succs := g.succs(s.b)
 		// path-sensitive folding: a branch on a phi (or on a nil test of a phi) whose value is known
 		// from the edge by which its block was last entered follows only the matching successor
+		rcIdx := -1
 		if track && len(s.b.Instrs) > 0 {
 			if ifi, ok := s.b.Instrs[len(s.b.Instrs)-1].(*ssa.If); ok {
 				if v, known := g.evalCond(ifi.Cond, s.facts, 0); known {
@@ -382,6 +384,9 @@ func (g *Graph) PathExists(from, to IPos, av Avoid) (bool, []*ssa.BasicBlock) {
 						}
 					}
 					succs = keep
+				}
+				if k, ok := g.rconds[condNF(ifi.Cond)]; ok {
+					rcIdx = len(g.iphis) + k
 				}
 			}
 		}
@@ -394,8 +399,26 @@ func (g *Graph) PathExists(from, to IPos, av Avoid) (bool, []*ssa.BasicBlock) {
 			}
 			t := e.To()
 			nf := s.facts
+			if rcIdx >= 0 {
+				// remember how this repeated condition was decided
+				bs := []byte(nf)
+				if e.Succ == 0 {
+					bs[rcIdx] = 1
+				} else {
+					bs[rcIdx] = 2
+				}
+				nf = string(bs)
+			}
 			if track && blockHasPhi(t) {
-				nf = g.enter(s.facts, s.b, t)
+				nf = g.enter(nf, s.b, t)
+			}
+			if track && len(g.rconds) > 0 && isLoopHeader(t) {
+				// values change from one iteration to the next: forget what was learnt about conditions
+				bs := []byte(nf)
+				for k := len(g.iphis); k < len(bs); k++ {
+					bs[k] = 0
+				}
+				nf = string(bs)
 			}
 			k := key{nil, t, nf}
 			if blockHasPhi(t) {
@@ -429,6 +452,23 @@ func (g *Graph) initFacts() {
 		return
 	}
 	g.iphiIdx = map[*ssa.Phi]int{}
+	g.rconds = map[string]int{}
+	cnt := map[string]int{}
+	for _, b := range g.Fn.Blocks {
+		if len(b.Instrs) == 0 {
+			continue
+		}
+		if ifi, ok := b.Instrs[len(b.Instrs)-1].(*ssa.If); ok {
+			if k := condNF(ifi.Cond); k != "" {
+				cnt[k]++
+			}
+		}
+	}
+	for k, n := range cnt {
+		if n >= 2 {
+			g.rconds[k] = len(g.rconds)
+		}
+	}
 	var feedsIf func(v ssa.Value, d int) bool
 	feedsIf = func(v ssa.Value, d int) bool {
 		if d > 4 || v.Referrers() == nil {
@@ -473,6 +513,38 @@ func (g *Graph) initFacts() {
 			}
 		}
 	}
+}
+
+// condNF: a normal form of a branch condition over immutable SSA operands ("" when it is not worth
+// remembering): the same comparison written twice yields the same string (go/ssa does no CSE).
+func condNF(c ssa.Value) string {
+	switch x := c.(type) {
+	case *ssa.BinOp:
+		if !isOrdering(x.Op) {
+			return ""
+		}
+		return fmt.Sprintf("%s %s %s", operandNF(x.X), x.Op, operandNF(x.Y))
+	case *ssa.Phi, *ssa.Const:
+		return ""
+	}
+	return fmt.Sprintf("v:%p", c)
+}
+
+func operandNF(v ssa.Value) string {
+	if c, ok := v.(*ssa.Const); ok {
+		return "c:" + c.String()
+	}
+	return fmt.Sprintf("%p", v)
+}
+
+// isLoopHeader: the block dominates one of its predecessors.
+func isLoopHeader(b *ssa.BasicBlock) bool {
+	for _, p := range b.Preds {
+		if b.Dominates(p) {
+			return true
+		}
+	}
+	return false
 }
 
 func nilableType(t types.Type) bool {
@@ -554,6 +626,13 @@ func (g *Graph) factOf(v ssa.Value, facts string, p, b *ssa.BasicBlock) byte {
 func (g *Graph) evalCond(c ssa.Value, facts string, depth int) (bool, bool) {
 	if depth > 4 {
 		return false, false
+	}
+	if len(g.rconds) > 0 {
+		if k, ok := g.rconds[condNF(c)]; ok && len(g.iphis)+k < len(facts) {
+			if f := facts[len(g.iphis)+k]; f != 0 {
+				return f == 1, true
+			}
+		}
 	}
 	switch x := c.(type) {
 	case *ssa.Const:
